@@ -69,6 +69,40 @@ func entries() []entry {
 	}
 }
 
+// degenerates are first operations that evaluate no form at all, or give up before evaluating one: the bookkeeping
+// around an evaluation must balance on those paths too.  They are used as the EARLIER operation only.
+func degenerates() []entry {
+	bg := context.Background()
+	ld := func(src string) func(g *rig) *lisp.LVal {
+		return func(g *rig) *lisp.LVal { return g.env.LoadString("t", src) }
+	}
+	return []entry{
+		{"LoadString-empty", ld("")},
+		{"LoadString-whitespace", ld("  \n\t\n")},
+		{"LoadString-comment-only", ld("; nothing here\n;; at all\n")},
+		{"LoadStringContext-empty", func(g *rig) *lisp.LVal { return g.env.LoadStringContext(bg, "t", "") }},
+		{"Load-empty", func(g *rig) *lisp.LVal { return g.env.LEnv.Load("t", strings.NewReader("")) }},
+		{"LoadProgram-empty", func(g *rig) *lisp.LVal {
+			p, err := el.Parse("t", "")
+			if err != nil {
+				panic(err)
+			}
+			return g.env.LoadProgram(p)
+		}},
+		{"LoadString-syntax-error", ld("(loop 2")},
+		{"LoadString-nested-empty-load", ld("(load-string \"\")")},
+		{"LoadString-nested-comment-load-then-work", ld("(progn (load-string \"; nothing\") (loop 2))")},
+		{"LoadString-nested-empty-load-bytes-in-function", ld("(defun ld () (load-bytes (to-bytes \"\")) 1) (ld) (ld)")},
+		{"LoadString-nested-syntax-error-swallowed", ld("(ignore-errors (load-string \"(\")) (loop 2)")},
+		{"LoadFile-no-library", func(g *rig) *lisp.LVal { return g.env.LoadFile("nowhere.lisp") }},
+		{"Eval-atom", func(g *rig) *lisp.LVal { return g.env.Eval(lisp.Int(1)) }},
+		{"Eval-nil", func(g *rig) *lisp.LVal { return g.env.Eval(lisp.Nil()) }},
+		{"EvalSExpr-empty", func(g *rig) *lisp.LVal { return g.env.EvalSExpr(lisp.SExpr(nil)) }},
+		{"FunCall-not-a-function", func(g *rig) *lisp.LVal { return g.env.FunCall(lisp.Int(5), lisp.QExpr(nil)) }},
+		{"FunCall-wrong-arity", func(g *rig) *lisp.LVal { return g.env.FunCall(sym(g, "loop"), lisp.QExpr(nil)) }},
+	}
+}
+
 func (g *rig) entryRun(e entry, budget int64) (el.Outcome, int64, []event) {
 	lisp.WithMaxSteps(budget)(g.env.LEnv)
 	g.trace = nil
@@ -87,7 +121,7 @@ type refillCaseT struct {
 }
 
 func entryByName(n string) entry {
-	for _, e := range entries() {
+	for _, e := range append(entries(), degenerates()...) {
 		if e.name == n {
 			return e
 		}
@@ -116,6 +150,14 @@ func refillCheck(a, b entry, budgetA int64) (bad bool, rep string) {
 			return true, rep
 		}
 	}
+	// and again with exactly what it needs: EVERY new top-level evaluation starts with a full budget, not only the
+	// first one after A (a counter that is no longer reset lets one evaluation through when A itself took no step)
+	for i := 0; i < 2; i++ {
+		o3, s3, _ := g.entryRun(b, nb)
+		if o3.String() != wantOut.String() || s3 != nb {
+			return true, rep + fmt.Sprintf("; B once more with budget=%d -> %s steps=%d", nb, o3.String(), s3)
+		}
+	}
 	return false, rep
 }
 
@@ -132,7 +174,8 @@ func refillCase(k kase) (bool, string) {
 func refill(r *core.Run) {
 	es := entries()
 	r.Bound("entry_points", len(es))
-	for _, a := range es {
+	r.Bound("degenerate_first_operations", len(degenerates()))
+	for _, a := range append(entries(), degenerates()...) {
 		fresh := newRig()
 		_, na, _ := fresh.entryRun(a, huge)
 		for _, b := range es {
